@@ -955,3 +955,121 @@ Proof.
   revert s0 H. induction l as [|u l IH]; intros s0 H; [exact H|].
   cbn [fold_left]. apply IH. destruct u; cbn [exec_u]; [apply inv_tick|apply inv_clear]; exact H.
 Qed.
+
+(* ------------------------------------------------------------------------------------------------- *)
+(* C20: an APU power cycle clears NR50 and NR51, so both sides stay silent until they are written again *)
+Definition mixer_cleared (c : control) : Prop :=
+  ct1L c = false /\ ct2L c = false /\ ct3L c = false /\ ct4L c = false /\
+  ct1R c = false /\ ct2R c = false /\ ct3R c = false /\ ct4R c = false /\ ctVolL c = 0 /\ ctVolR c = 0.
+
+Lemma mixer_cleared_silent s : mixer_cleared (ctl s) -> left_sample s = 0 /\ right_sample s = 0.
+Proof.
+  intros (A1 & A2 & A3 & A4 & B1 & B2 & B3 & B4 & _ & _). unfold left_sample, right_sample. cbv zeta.
+  rewrite A1, A2, A3, A4, B1, B2, B3, B4. split; reflexivity.
+Qed.
+
+Lemma clear_mixer_writes x : is_on x = true -> mixer_cleared (ctl (WriteNR51 (WriteNR50 x 0) 0)).
+Proof.
+  unfold is_on. intros Hon. unfold WriteNR51, WriteNR50. rewrite Hon. psimpl. rewrite Hon. psimpl.
+  unfold mixer_cleared. psimpl. repeat split; reflexivity.
+Qed.
+
+Definition off_chain_pre (s : apu) : apu :=
+  WriteNR44 (WriteNR43 (WriteNR42 (WriteNR34 (WriteNR33 (WriteNR32 (WriteNR30
+  (WriteNR24 (WriteNR23 (WriteNR22 (WriteNR14 (WriteNR13 (WriteNR12 (WriteNR10 (set_on s true) 0) 0) 0) 0) 0) 0) 0)
+  0) 0) 0) 0) 0) 0) 0.
+
+Lemma off_chain_split s : off_chain s = WriteNR51 (WriteNR50 (off_chain_pre s) 0) 0.
+Proof. unfold off_chain, off_chain_pre. reflexivity. Qed.
+
+Lemma is_on_frames x v :
+  is_on (WriteNR10 x v) = is_on x /\ is_on (WriteNR12 x v) = is_on x /\ is_on (WriteNR13 x v) = is_on x /\
+  is_on (WriteNR14 x v) = is_on x /\ is_on (WriteNR22 x v) = is_on x /\ is_on (WriteNR23 x v) = is_on x /\
+  is_on (WriteNR24 x v) = is_on x /\ is_on (WriteNR30 x v) = is_on x /\ is_on (WriteNR32 x v) = is_on x /\
+  is_on (WriteNR33 x v) = is_on x /\ is_on (WriteNR34 x v) = is_on x /\ is_on (WriteNR42 x v) = is_on x /\
+  is_on (WriteNR43 x v) = is_on x /\ is_on (WriteNR44 x v) = is_on x.
+Proof.
+  repeat split.
+  - apply (frame_W10 x v). - apply (frame_W12 x v). - apply (frame_W13 x v). - apply (frame_W14 x v).
+  - apply (frame_W22 x v). - apply (frame_W23 x v). - apply (frame_W24 x v). - apply (frame_W30 x v).
+  - apply (frame_W32 x v). - apply (frame_W33 x v). - apply (frame_W34 x v). - apply (frame_W42 x v).
+  - apply (frame_W43 x v). - apply (frame_W44 x v).
+Qed.
+
+Lemma is_on_off_chain_pre s : is_on (off_chain_pre s) = true.
+Proof.
+  unfold off_chain_pre.
+  repeat match goal with
+         | |- is_on (?W ?x 0) = true =>
+             let H := fresh in pose proof (is_on_frames x 0) as H;
+             first [ rewrite (proj1 H) | rewrite (proj1 (proj2 H)) | rewrite (proj1 (proj2 (proj2 H)))
+                   | rewrite (proj1 (proj2 (proj2 (proj2 H)))) | rewrite (proj1 (proj2 (proj2 (proj2 (proj2 H)))))
+                   | rewrite (proj1 (proj2 (proj2 (proj2 (proj2 (proj2 H))))))
+                   | rewrite (proj1 (proj2 (proj2 (proj2 (proj2 (proj2 (proj2 H)))))))
+                   | rewrite (proj1 (proj2 (proj2 (proj2 (proj2 (proj2 (proj2 (proj2 H))))))))
+                   | rewrite (proj1 (proj2 (proj2 (proj2 (proj2 (proj2 (proj2 (proj2 (proj2 H)))))))))
+                   | rewrite (proj1 (proj2 (proj2 (proj2 (proj2 (proj2 (proj2 (proj2 (proj2 (proj2 H))))))))))
+                   | rewrite (proj1 (proj2 (proj2 (proj2 (proj2 (proj2 (proj2 (proj2 (proj2 (proj2 (proj2 H)))))))))))
+                   | rewrite (proj1 (proj2 (proj2 (proj2 (proj2 (proj2 (proj2 (proj2 (proj2 (proj2 (proj2 (proj2 H))))))))))))
+                   | rewrite (proj1 (proj2 (proj2 (proj2 (proj2 (proj2 (proj2 (proj2 (proj2 (proj2 (proj2 (proj2 (proj2 H)))))))))))))
+                   | rewrite (proj2 (proj2 (proj2 (proj2 (proj2 (proj2 (proj2 (proj2 (proj2 (proj2 (proj2 (proj2 (proj2 H))))))))))))) ];
+             clear H
+         end.
+  reflexivity.
+Qed.
+
+Lemma power_off_clears_mixer s v : (N.shiftr v 7 =? 0) = true -> mixer_cleared (ctl (apu_bus_write s 0xFF26 v)).
+Proof.
+  intros E. change (apu_bus_write s 0xFF26 v) with (WriteNR52 s v). rewrite (W52_off_eq s v E), off_chain_split.
+  pose proof (clear_mixer_writes (off_chain_pre s) (is_on_off_chain_pre s)) as H.
+  generalize dependent (WriteNR51 (WriteNR50 (off_chain_pre s) 0) 0). intros x H. exact H.
+Qed.
+
+(* the control record is untouched by every write except those to NR50, NR51, NR52, and by time *)
+Lemma ctl_frame s a v : a <> 0xFF24 -> a <> 0xFF25 -> a <> 0xFF26 -> ctl (apu_bus_write s a v) = ctl s.
+Proof.
+  intros H1 H2 H3.
+  addr_chain; try contradiction;
+    try (unfold WriteNR10, WriteNR11, WriteNR12, WriteNR13, WriteNR14, WriteNR21, WriteNR22, WriteNR23, WriteNR24,
+           WriteNR30, WriteNR31, WriteNR32, WriteNR33, WriteNR34, WriteNR41, WriteNR42, WriteNR43, WriteNR44,
+           sq_write_nrx2; match goal with |- context [ctOn (ctl ?s)] => destruct (ctOn (ctl s)) | _ => idtac end;
+         reflexivity).
+  repeat match goal with |- context [if ?b then _ else _] => destruct b end; try reflexivity.
+  unfold WriteWaveRAM. break_ifs; reflexivity.
+Qed.
+
+Lemma mixer_cleared_power_on s v :
+  (N.shiftr v 7 =? 0) = false -> mixer_cleared (ctl s) -> mixer_cleared (ctl (apu_bus_write s 0xFF26 v)).
+Proof.
+  intros E H. change (apu_bus_write s 0xFF26 v) with (WriteNR52 s v). rewrite (W52_on_eq s v E).
+  destruct (ctOn (ctl s)); exact H.
+Qed.
+
+Definition keeps_mixer (o : apu_op) : Prop :=
+  match o with OWrite a v => a <> 0xFF24 /\ a <> 0xFF25 /\ a <> 0xFF26 | OCycle => True end.
+
+Lemma mixer_cleared_run h : forall s, Forall keeps_mixer h -> mixer_cleared (ctl s) -> mixer_cleared (ctl (apu_run s h)).
+Proof.
+  induction h as [|o h IH]; intros s Hall H; [exact H|]. inversion Hall as [|? ? Ho Hh]; subst.
+  rewrite apu_run_cons. apply IH; [exact Hh|].
+  destruct o as [a v|]; cbn [apu_step].
+  - destruct Ho as (H1 & H2 & H3). rewrite (ctl_frame s a v H1 H2 H3). exact H.
+  - rewrite ctl_end_cycle. exact H.
+Qed.
+
+(* C20: after switching the APU off and on again, whatever is triggered or written afterwards (except NR50, NR51,
+   NR52), both sides of every emitted pair are 0 *)
+Theorem power_cycle_silent s v_off v_on h :
+  (N.shiftr v_off 7 =? 0) = true -> (N.shiftr v_on 7 =? 0) = false -> Forall keeps_mixer h ->
+  let s' := apu_run (apu_bus_write (apu_bus_write s 0xFF26 v_off) 0xFF26 v_on) h in
+  mixer_cleared (ctl s') /\ left_sample s' = 0 /\ right_sample s' = 0 /\
+  apu_bus_read s' 0xFF25 = 0.
+Proof.
+  intros Eoff Eon Hall s'.
+  assert (H : mixer_cleared (ctl s')).
+  { unfold s'. apply mixer_cleared_run; [exact Hall|]. apply mixer_cleared_power_on; [exact Eon|].
+    apply power_off_clears_mixer. exact Eoff. }
+  split; [exact H|]. destruct (mixer_cleared_silent s' H) as [L R]. split; [exact L|]. split; [exact R|].
+  destruct H as (A1 & A2 & A3 & A4 & B1 & B2 & B3 & B4 & _ & _).
+  change (apu_bus_read s' 0xFF25) with (ReadNR51 s'). unfold ReadNR51. rewrite A1, A2, A3, A4, B1, B2, B3, B4. reflexivity.
+Qed.
